@@ -553,7 +553,10 @@ func (d *hoDriver) height() error {
 		b.C.Eng.TakeLog()
 		resB, err := b.C.Finalize(blkB)
 		if err != nil {
-			return fmt.Errorf("replica finalize: %w", err)
+			// the replica cannot execute a block the proposer's node executed: the same block on the same committed state gave
+			// two different results (C07), and the replica's chain stops
+			d.emit("exec", Ev{"key": hex.EncodeToString(prevApp) + "/" + hex.EncodeToString(blkB.Hash(b.C.ChainID)[:6]), "res": "error:" + short(err.Error()), "replica": "B", "attempt": 0, "detail": "FinalizeBlock failed"})
+			return &HaltError{Height: h, Err: fmt.Errorf("replica finalize: %w", err)}
 		}
 		d.emit("exec", Ev{"key": hex.EncodeToString(prevApp) + "/" + hex.EncodeToString(blkB.Hash(b.C.ChainID)[:6]), "res": execDigest(resB, b.C.Eng.TakeLog(), b.C), "replica": "B", "attempt": 0, "detail": execDetail(resB)})
 		b.C.ApplyUpdates(h, resB.ValidatorUpdates)
